@@ -372,7 +372,7 @@ pub fn strategy(max_len: usize) -> BoxedStrategy<Case> {
             2 => (0usize..=max_len).prop_map(Some), // different (or equal by chance) length
         ],
         any::<bool>(),
-        prop::collection::vec(any::<u64>(), 0..16),
+        crate::rngs::script_strategy(16),
         any::<u64>(),
     )
         .prop_map(|(two_point, tuple, bits, p1, other_len, random_p2, script, s)| {
